@@ -77,9 +77,9 @@ def structure_class(ant, loads, env=None):
     return cls
 
 
-def gen_case(rng, uniform=True, small=True):
+def gen_case(rng, uniform=True, small=True, families=None):
     kw = dict(len_jitter=(1, 1), rad_jitter=(1, 1)) if uniform else {}
-    ant = antgen.gen_antenna(rng, max_pulses=14 if small else 30, **kw)
+    ant = antgen.gen_antenna(rng, families=families, max_pulses=14 if small else 30, **kw)
     env = 'free'
     if ant['ground']:
         env = rng.choice(['ideal', 'ideal', 'real1', 'real2', 'radials'])
@@ -107,6 +107,16 @@ def gen_case(rng, uniform=True, small=True):
         mag = 10 ** rng.uniform(-1, 1.5)
         ph = rng.uniform(-math.pi, math.pi) if rng.random() < 0.7 else 0.0
         srcs.append((p, [mag * math.cos(ph), mag * math.sin(ph)]))
+    if ant['family'] == 'varray':
+        # an array proper: every element driven near its centre with comparable voltages and arbitrary phases
+        srcs, k0 = [], 0
+        for w in ant['wires']:
+            ph = rng.uniform(-math.pi, math.pi)
+            mag = rng.uniform(0.5, 2.0)
+            srcs.append((k0 + (w['nseg'] - 1) // 2, [mag * math.cos(ph), mag * math.sin(ph)]))
+            k0 += w['nseg'] - 1
+        if k0 != N:
+            srcs = srcs[:1]
     return dict(ant=ant, env=env, loads=loads, srcs=srcs)
 
 
@@ -218,7 +228,7 @@ def run(ck):
     worst_id = 0.0
     for i in range(n):
         uniform = (i % 5 != 4)
-        case = gen_case(rng, uniform=uniform, small=ck.tier == 'quick')
+        case = gen_case(rng, uniform=uniform, small=ck.tier == 'quick', families=['varray'] if i % 9 == 2 else None)
         if not in_domain(case['ant']):
             ck.count('outside_modelling_rules')
             continue
